@@ -161,6 +161,14 @@ func soa(ttl uint32, serial uint32) dns.RR {
 
 // genMsg: a response for (name, qt); shape: 0 NXDOMAIN, 1 NODATA, else answers.
 func genMsg(r *hx.RNG, name string, qt uint16, ttl uint32, shape int, txtLen int) *dns.Msg {
+	return genMsgPad(r, name, qt, ttl, shape, txtLen, false)
+}
+
+const padAlphabet = "ABCDEFGHIJKLMNOPQRSTUVWXYZabcdefghijklmnopqrstuvwxyz0123456789+/-_.,:!#$%&()*<=>?@[]^{|}~"
+
+// genMsgPad: randomPad fills the padding records with random printable
+// characters (hardly compressible) instead of a constant.
+func genMsgPad(r *hx.RNG, name string, qt uint16, ttl uint32, shape int, txtLen int, randomPad bool) *dns.Msg {
 	m := new(dns.Msg)
 	m.SetQuestion(name, qt)
 	m.Response = true
@@ -201,10 +209,25 @@ func genMsg(r *hx.RNG, name string, qt uint16, ttl uint32, shape int, txtLen int
 		if k > 255 {
 			k = 255
 		}
-		m.Extra = append(m.Extra, &dns.TXT{Hdr: dns.RR_Header{Name: ".", Rrtype: dns.TypeTXT, Class: dns.ClassINET, Ttl: ttl}, Txt: []string{strings.Repeat("p", k)}})
+		m.Extra = append(m.Extra, &dns.TXT{Hdr: dns.RR_Header{Name: ".", Rrtype: dns.TypeTXT, Class: dns.ClassINET, Ttl: ttl}, Txt: []string{padText(r, k, randomPad)}})
 		txtLen -= k
 	}
 	return m
+}
+
+func padText(r *hx.RNG, k int, random bool) string {
+	if !random {
+		return strings.Repeat("p", k)
+	}
+	b := make([]byte, k)
+	for i := 0; i < k; i += 8 {
+		x := r.U64()
+		for j := i; j < i+8 && j < k; j++ {
+			b[j] = padAlphabet[x%uint64(len(padAlphabet))]
+			x /= uint64(len(padAlphabet))
+		}
+	}
+	return string(b)
 }
 
 // ---------- loading under a watchdog ----------
@@ -339,6 +362,8 @@ type roundSpec struct {
 	// SERVFAIL (5 s) and empty answers (<= 300 s): stored now, cache expiry =
 	// message expiry = stored + that TTL, whatever the lazy setting is
 	pNeg int
+	// padding records hold random characters: the dump hardly compresses
+	randPad bool
 }
 
 func msgIDs() (func(*dns.Msg) int, func(string) int) {
@@ -434,7 +459,7 @@ func runRoundOnce(id string, r *hx.RNG, sp roundSpec) (hx.Case, bool) {
 		if sp.txtLen != nil {
 			pad = sp.txtLen(i)
 		}
-		it.resp = genMsg(r, name, qt, ttl, r.Intn(6), pad)
+		it.resp = genMsgPad(r, name, qt, ttl, r.Intn(6), pad, sp.randPad)
 		if r.Chance(1, 3) {
 			q := new(dns.Msg)
 			q.SetQuestion(name, qt)
@@ -1146,6 +1171,11 @@ func buildTasks(o *hx.Opts) []task {
 		{"lazy_on_on_file", roundSpec{n: 20, pNeg: 50, lazyDump: 7200, lazyLoad: 7200, via: "file", pExpiring: 10}},
 		{"lazy_off_on_file", roundSpec{n: 150, pNeg: 20, lazyLoad: 1800, via: "file"}},
 		{"lazy_on_on_between", roundSpec{n: 6, between: true, pNeg: 50, lazyDump: 3600, lazyLoad: 3600}},
+		// dumps whose COMPRESSED size exceeds 1 MiB (random, hardly compressible answers; several blocks):
+		// GET /dump -> POST /load_dump must bring every entry back with status 200, like the file route does
+		{"bigfile_http", roundSpec{n: 36, txtLen: pad(50000), randPad: true, via: "http"}},
+		{"bigfile_http_many", roundSpec{n: 330, txtLen: pad(5000), randPad: true, via: "http", lazyLoad: 3600}},
+		{"bigfile_file", roundSpec{n: 36, txtLen: pad(50000), randPad: true, via: "file"}},
 		// single large answers (entries of 40, 60, 70, 100 KiB and more) among ordinary ones
 		{"large_40k", roundSpec{n: 9, txtLen: largeAt(4, 40000)}},
 		{"large_60k", roundSpec{n: 9, txtLen: largeAt(0, 59000)}},
